@@ -51,3 +51,18 @@ Example C17_example :
   streams (srun [OAddStream 1 10; OUpload 1 1 1 20; OAddStream 2 10]) = [(2, 10)] /\
   files (srun [OAddStream 1 10; OUpload 1 1 1 20; OAddStream 2 10]) = [].
 Proof. vm_compute. repeat split; reflexivity. Qed.
+
+(* dropping a track from a Period of a multi-period stream removes exactly that adaptation set: every other table, and
+   every other adaptation set - those of other Periods and other streams included - is as before *)
+Theorem C17_drop_track_exact :
+  forall s apk, let s' := sstep s (ODelAset apk) in
+  streams s' = streams s /\ files s' = files s /\ blobs s' = blobs s /\ keys s' = keys s /\ links s' = links s /\
+  mpss s' = mpss s /\ periods s' = periods s /\
+  forall a, In a (asets s') <-> In a (asets s) /\ fst a <> apk.
+Proof.
+  intros s apk. cbn [sstep streams files blobs keys links mpss periods asets].
+  do 7 (split; [reflexivity|]). intros a. rewrite filter_In. split.
+  - intros [Hin Hb]. split; [exact Hin|]. apply negb_true_iff in Hb. lia.
+  - intros [Hin Hne]. split; [exact Hin|]. apply negb_true_iff. lia.
+Qed.
+Print Assumptions C17_drop_track_exact.
